@@ -243,7 +243,12 @@ impl Exec {
     /// such reads are not compared with the model; both sides print `racy`.
     pub fn racy_state(&mut self) -> bool {
         let out = self.outstanding_jobs();
-        let unwritten = out >= 2 || (out == 1 && self.where_parked() == Some(0));
+        let unwritten = if self.ntypes <= 1 {
+            out >= 2 || (out == 1 && self.where_parked() == Some(0))
+        } else {
+            // an in-flight segment never has files for the types it does not hold
+            out >= 1
+        };
         if !unwritten {
             return false;
         }
